@@ -237,3 +237,7 @@ mod tests {
         assert!(object.is_any());
     }
 }
+
+#[cfg(kani)]
+#[path = "/verif/kani/query.rs"]
+mod kani_verif;
